@@ -387,6 +387,15 @@ def check_seq(case, ctx: Ctx):
         # buffers and ordinary parts are filtered separately and stitched with masks)
         short = mod.channel_samples[n]
         cv = view.ch.get(n)
+        eom_cfg = getattr(cv.obj, "eom_config", None) if cv is not None else None
+        if cv is not None and cv.blocks and eom_cfg is not None and cv.obj.mod_bandwidth and \
+                eom_cfg.mod_bandwidth < cv.obj.mod_bandwidth:
+            # an EOM slower than its channel: the tree filters the whole channel at the EOM bandwidth
+            # and masks that to the EOM blocks, so the slow tail of an earlier ordinary pulse shows up
+            # inside a following block (only where the arrays are long enough to hold it). What the
+            # output is there is not something the statement says (DESIGN section 9, #45)
+            ctx.label("eom_slower_than_channel(prefix check skipped)")
+            continue
         # (amplitude only: the detuning is filtered with its ends held, and what the tree does
         #  with the held ends where the array stops is not part of the statement)
         for key in ("amp",):
